@@ -1,5 +1,6 @@
 import Fabio.Driver.Proto
 import Fabio.Model.C17
+import Fabio.Model.C17Proxy
 /-!
 Driver for C17. One case = one scripted upstream response served through the real `NewGzipHandler`
 (`got`) and through the bare scripted handler (`base`), either into a recorder or over a real server.
@@ -61,6 +62,7 @@ structure Resp where
   body : Blob
   gunzip : Option (Bool × Blob)
   err : String := ""
+  trailer : List (String × String) := []
 
 def respOf (j : Json) : Except String Resp := do
   let g := (j.getObjVal? "gunzip").toOption.getD Json.null
@@ -69,7 +71,10 @@ def respOf (j : Json) : Except String Resp := do
     pure (some (ok, ← blobOf g))
   pure { status := ← j.getObjValAs? Nat "status", hdr := ← pairs (← j.getObjVal? "hdr"),
          body := ← blobOf (← j.getObjVal? "body"), gunzip := gz,
-         err := (j.getObjValAs? String "err").toOption.getD "" }
+         err := (j.getObjValAs? String "err").toOption.getD "",
+         trailer := ← (match j.getObjVal? "trailer" with
+           | .ok t => if t.isNull then pure [] else pairs t
+           | .error _ => pure []) }
 
 /-- a written chunk: its bytes when shipped in hex, otherwise only its length. -/
 structure Chunk where
@@ -92,6 +97,7 @@ def opOf (j : Json) : Except String SOp := do
   | "del" => pure (.h (.del k))
   | "wh" => pure (.wh ((j.getObjValAs? Nat "code").toOption.getD 0))
   | "fl" => pure .fl
+  | "rc" => pure .fl   -- `http.NewResponseController(w).Flush()`: same capability question, asked the way ReverseProxy asks it
   | "w" =>
     let hx := (j.getObjValAs? String "hex").toOption.getD ""
     let n := (j.getObjValAs? Nat "len").toOption.getD 0
@@ -115,6 +121,8 @@ structure Case where
   up : Blob
   nw : Nat
   canFlush : Bool
+  /-- stream c17.proxy: is an expression configured, and the response as the transport delivered it -/
+  proxy : Option (Bool × UpResp) := none
 
 def caseOf (inp impl : Json) : Except String Case := do
   let orc ← impl.getObjVal? "oracle"
@@ -218,12 +226,17 @@ def evalCase (c : Case) : Eval :=
   let C := cfgOf c
   let ops := modelOps c
   let head := c.method == "HEAD"
-  let r := serve C head true (reqHdr c.req) [] [] ops
+  let gzOn := match c.proxy with | some (gz, _) => gz | none => true
+  let r : Served Unit := match c.proxy with
+    | none => serve C head true (reqHdr c.req) [] [] ops
+    | some (gz, u) =>
+      let p := proxyServe C gz head true (reqHdr c.req) [] [] u
+      { compressed := p.compressed, obs := p.obs, pool := p.pool }
   let hasFl := ops.any (· == Op.fl)
   let has1xx := ops.any (fun | .wh k => informational k | _ => false)
   -- did the handler get a Flusher? predicted by the model; observed by the harness (the bare run mirrors it)
   let cfModel := flusherOffered head true (reqHdr c.req)
-  let cf := c.canFlush
+  let cf := if c.proxy.isSome then cfModel else c.canFlush
   let mh := flatHdr r.obs.hdr
   let noBody := bodiless c r.obs.status
   let model := Json.mkObj [("compressed", r.compressed), ("status", r.obs.status), ("hdr", pairsJson mh),
@@ -256,7 +269,7 @@ def evalCase (c : Case) : Eval :=
     | none => false
   let upEncoded := valuesOf upH hContentEncoding != [] && valuesOf upH hContentEncoding != [""]
   let implicit := implicitFirst cf ops
-  let engaged := acceptsGzip (reqHdr c.req) && !head
+  let engaged := gzOn && acceptsGzip (reqHdr c.req) && !head
   let hdrAgree :=
     if c.layer == "rec" then got.hdr == mh
     else
@@ -271,8 +284,15 @@ def evalCase (c : Case) : Eval :=
   let (spec, ftag) : Bool × String :=
     if got.err != "" then (false, "transport-error")
     else if !statusOk then (false, "status-changed")
+    else if got.trailer != base.trailer then (false, "trailer-changed")
     else if !changed then
       let rest := [hVary, hContentType]
+      -- over a real server a Content-Length that the handler did not declare is net/http's framing (it appears when the
+      -- whole response was buffered, and not when the handler's Flush went through): when the upstream declared none it is judged by "it is the length of
+      -- what is on the wire", not by equality with the other run
+      let framing := c.layer == "srv" && valuesOf upRaw hContentLength == [] &&
+        (valuesOf got.hdr hContentLength == [] || valuesOf got.hdr hContentLength == [toString got.body.len] || bodiless c got.status)
+      let rest := if framing then hContentLength :: rest else rest
       if without got.hdr rest != without base.hdr rest then (false, "header-changed")
       else if !varyOk then (false, "vary-changed")
       else if ct got != ct base then (false, "sniffed-type-differs")
@@ -300,6 +320,7 @@ def evalCase (c : Case) : Eval :=
     if ftag != "" then ftag
     else (if has1xx then "1xx+" else "") ++ (if hasFl then "flush+" else "") ++
     if r.compressed then (if implicit then "gzip/implicit" else "gzip/explicit")
+    else if !gzOn then "plain/not-configured"
     else if !(acceptsGzip (reqHdr c.req)) then (if containsL aeAll.toList encGzip.toList then "plain/refused" else "plain/no-accept")
     else if head then "plain/head"
     else match dec with
@@ -340,6 +361,118 @@ def poolH : Handler := fun inp impl => do
                 | some e => "pool/" ++ e.tag
                 | none => "pool" } : Verdict).toJson
 
+/-- c17.seq: every exchange of the sequence judged on its own — the model says a response does not depend on what
+the same handler value served before (`history_independent`). -/
+def seqH : Handler := fun inp impl => do
+  match impl.getArr? with
+  | .error _ =>
+    let isPanic := (impl.getObjVal? "panic").toOption.isSome
+    return ({ model := Json.null, agree := !isPanic, spec := !isPanic, nontrivial := false,
+              tag := if isPanic then "panic" else "rejected-input" } : Verdict).toJson
+  | .ok outs =>
+    let items ← (← inp.getObjVal? "items").getArr?
+    if items.size != outs.size then throw "seq: size mismatch"
+    let es ← (items.toList.zip outs.toList).mapM (fun (i, o) => do pure (evalCase (← caseOf i o)))
+    let bad := es.find? (fun e => !e.spec || !e.agree)
+    let nz := (es.filter (·.nontrivial)).length
+    let gz := (es.filter (fun e => e.tag.endsWith "gzip/implicit" || e.tag.endsWith "gzip/explicit")).length
+    return ({ model := Json.arr (es.map (·.model)).toArray, agree := es.all (·.agree), spec := es.all (·.spec),
+              nontrivial := nz ≥ 2 && es.length ≥ 3,
+              tag := match bad with
+                | some e => "seq/" ++ e.tag
+                | none => if gz == 0 then "seq/none-compressed" else if gz == es.length then "seq/all-compressed" else "seq/mixed" } : Verdict).toJson
+
+/-! c17.proxy -/
+
+structure Tr where
+  info : List (Nat × List (String × String))
+  status : Nat
+  hdr : List (String × String)
+  body : Blob
+  uncompressed : Bool
+
+def trOf (j : Json) : Except String Tr := do
+  let infos ← (← j.getObjVal? "info").getArr?
+  let info ← infos.toList.mapM (fun i => do
+    pure ((← i.getObjValAs? Nat "code"), (← pairs (← i.getObjVal? "hdr"))))
+  pure { info := info, status := ← j.getObjValAs? Nat "status", hdr := ← pairs (← j.getObjVal? "hdr"),
+         body := ← blobOf (← j.getObjVal? "body"), uncompressed := ← j.getObjValAs? Bool "uncompressed" }
+
+def Tr.same (a b : Tr) : Bool :=
+  a.info == b.info && a.status == b.status && a.hdr == b.hdr && sameBlob a.body b.body && a.uncompressed == b.uncompressed
+
+structure Seen where
+  n : Nat
+  ae : List String
+  accept : List String
+deriving BEq
+
+def seenOf (j : Json) : Except String Seen := do
+  let strs (k : String) : Except String (List String) := do
+    let a ← (← j.getObjVal? k).getArr?
+    a.toList.mapM (·.getStr?)
+  pure { n := ← j.getObjValAs? Nat "n", ae := ← strs "ae", accept := ← strs "accept" }
+
+def sopOf (opq : Option Nat) : Op → SOp
+  | .wh c => .wh c
+  | .fl => .fl
+  | .w b => (match opq with
+    | some n => .w { bytes := none, len := n }
+    | none => .w { bytes := some b, len := b.length })
+  | o => .h o
+
+def proxyH : Handler := fun inp impl => do
+  match impl.getObjVal? "got" with
+  | .error _ =>
+    let isPanic := (impl.getObjVal? "panic").toOption.isSome
+    return ({ model := Json.null, agree := !isPanic, spec := !isPanic, nontrivial := false,
+              tag := if isPanic then "panic" else "rejected-input" } : Verdict).toJson
+  | .ok _ =>
+    let cfg ← inp.getObjValAs? String "cfg"
+    let cfgerr ← impl.getObjValAs? Bool "cfgerr"
+    let compiles ← impl.getObjValAs? Bool "compiles"
+    let on ← impl.getObjValAs? Bool "on"
+    let opt := configure cfg compiles
+    if cfgerr then
+      -- `Load` refused the configuration: nothing is served; the model says that happens exactly for a
+      -- non-empty value that does not compile
+      return ({ model := Json.str "invalid", agree := opt == .invalid, spec := true, nontrivial := false,
+                tag := "proxy/invalid-expression" } : Verdict).toJson
+    let tr ← trOf (← impl.getObjVal? "tr")
+    let trb ← trOf (← impl.getObjVal? "trbase")
+    let sg ← seenOf (← impl.getObjVal? "seengot")
+    let sb ← seenOf (← impl.getObjVal? "seenbase")
+    let flush := (inp.getObjValAs? String "flush").toOption.getD ""
+    -- the response as the transport delivers it WITHOUT compression configured: the reference for model and spec
+    let opq := trb.body.big
+    let body ← if opq then pure [] else match unhex trb.body.hex.toList with
+      | some b => pure b
+      | none => throw "bad hex"
+    -- `removeHopByHopHeaders` (no `Connection` options are generated)
+    let hop := ["Connection", "Proxy-Connection", "Keep-Alive", "Proxy-Authenticate", "Proxy-Authorization", "Te", "Trailer",
+                "Transfer-Encoding", "Upgrade"]
+    let u : UpResp := { info := trb.info, code := trb.status, hdr := without trb.hdr hop,
+                        chunks := if trb.body.len == 0 then [] else [body], flushEach := flush == "-1s" }
+    let gz := opt == .on
+    let c : Case :=
+      { layer := "srv", method := ← inp.getObjValAs? String "method", req := ← pairs (← inp.getObjVal? "req"),
+        ops := (relay [hVary] u).map (sopOf (if opq then some trb.body.len else none)),
+        got := ← respOf (← impl.getObjVal? "got"), base := ← respOf (← impl.getObjVal? "base"),
+        sniff := "", matchTab := ← pairs (← impl.getObjVal? "match"), up := trb.body,
+        nw := if trb.body.len == 0 then 0 else 1, canFlush := false, proxy := some (gz, u) }
+    let e := evalCase c
+    -- the request reaches the upstream as it came (same Accept-Encoding/Accept lines as without compression), so the
+    -- transport delivers the same response in both configurations
+    let fwdSame := sg == sb && tr.same trb
+    let cfgAgree := (opt == .on && on) || (opt == .off && !on)
+    let enc := valuesOf trb.hdr hContentEncoding != []
+    return ({ model := e.model, agree := e.agree && fwdSame && cfgAgree, spec := e.spec,
+              nontrivial := gz && e.nontrivial,
+              tag := if !e.spec then "proxy/" ++ e.tag
+                     else if !cfgAgree then "proxy/option-misread"
+                     else if !fwdSame then "proxy/upstream-exchange-differs"
+                     else "proxy/" ++ (if enc then "upstream-encoded+" else "") ++ (if trb.uncompressed then "transport-decoded+" else "") ++ e.tag } : Verdict).toJson
+
 def streams : List (String × Handler) :=
-  [("c17.resp", respH), ("c17.resp.wide", respH), ("c17.pool", poolH)]
+  [("c17.resp", respH), ("c17.resp.wide", respH), ("c17.pool", poolH), ("c17.seq", seqH), ("c17.proxy", proxyH)]
 end Fabio.Driver.C17
